@@ -16,6 +16,7 @@ import D2P.Props.C02Notes
 import D2P.Props.C02Deep
 import D2P.Props.C02DeepCells
 import D2P.Props.C02Post
+import D2P.Props.C02PostNodup
 /-!
 # JSON line protocol between the Python harness and the model
 -/
@@ -366,6 +367,11 @@ def handleValid (j : Json) : Except String Json := do
        -- hypothesis of `C02_post_part_dup` (no cell continues a vertical merge)
        ("<vfree>", Json.mkObj (cs.map fun r => (String.ofList r.path,
           match rootElement o a files r with | .ok cr => toJson (vfree cr.2) | .error _ => Json.null))),
+       -- hypothesis of `C02_post_nodup` (pairwise distinct element identities; quadratic, evaluated for parts of up to 3000 elements)
+       ("<uniq>", Json.mkObj (cs.map fun r => (String.ofList r.path,
+          match rootElement o a files r with
+          | .ok cr => if (allIds cr.2).length ≤ 3000 then toJson (uniqueIds cr.2) else Json.null
+          | .error _ => Json.null))),
        ("<flat>", Json.mkObj (cs.map fun r => (String.ofList r.path,
           match rootElement o a files r with | .ok cr => toJson (leafIds cr.2 == pre cr.2) | .error _ => Json.null))),
        ("<groups>", toJson ((cs.map fun r => match rootElement o a files r with
